@@ -5,14 +5,15 @@ literal read-back) vs SyntaxParser(gram_rules) / Rules.from_ast / GramApp.render
 grammars. Oracle: from_ast(parse(pretty(g))) == g, compiled rules accept the same sentences with the same
 trees, the fixed points on the real files."""
 from lib import *
+from props.C07 import limited, TimeLimit
 import ast as pyast
 
 IMPORTS = 'From Tranp Require Import Model.Peg Model.Lexer Properties.C12.'
 SYMS = ['a', 'b', 'c', 'item', 'expr2', 'x_1', 'entry', 'tail']
 TERMS = ['"x"', '"+"', '"if"', '"("', '")"', '"\\n"', '","', '"=="',
-         '"\\INDENT"', '"\\DEDENT"', '"\\OP_UNARY_MINUS"', '"\\t"', '"a\\b"']     # terminals with a backslash: the special symbols of py_gram.lark, a control code, a plain one
+         '"\\INDENT"', '"\\DEDENT"', '"\\OP_UNARY_MINUS"', '"\\t"', '"a\\b"', '"\\\\"', '"x\\\\"']     # terminals with a backslash: the special symbols of py_gram.lark, a control code, a plain one
 REGEXPS = ['/[a-z]+/', '/\\d+/', '/[*+?]/', '/a|b/', "/\\'[^\\']*\\'/", '/[\\/]x/', '/\\w\\d*/',
-           '/[.]|\\//', '/\\/\\*x\\*\\//', '/\\/+/', '/"[^"]*"/']     # bodies that begin / end with an escaped delimiter or hold the other quote
+           '/[.]|\\//', '/\\/\\*x\\*\\//', '/\\/+/', '/"[^"]*"/', '/x\\\\/', '/[a]\\\\\\\\/']     # bodies that begin / end with an escaped delimiter or hold the other quote
 
 
 def load_real():
@@ -192,6 +193,10 @@ def run(ctx: Ctx) -> None:
             tree = parser.parse(text, 'entry')
         except Errors.Syntax as e:
             ctx.count('grammar:rejected')
+            if i % 6 != 5:
+                # texts of the generator are sentences of the meta-grammar by construction: the engine has to read them
+                ctx.violation('wellformed-grammar-rejected', 'a grammar text written in the meta-grammar is rejected by the engine (the printout of a rule set would not be read back)',
+                              dict(input=dict(grammar=text), impl_result=str(e)[:300]))
             if i < 3000 and all(ord(c) < 128 for c in text):
                 cases.append(coq_pair(coq_str(text), 'None'))
                 raw.append(dict(grammar=text, impl='Syntax'))
@@ -253,7 +258,11 @@ def run(ctx: Ctx) -> None:
                 outs = []
                 for rr in (g, gc):
                     try:
-                        outs.append(('ok', SyntaxParser(rr, ListTok()).parse('\x00'.join(sent), 'entry').simplify()))
+                        # (a repeat whose body can match nothing does not terminate in the engine - for the original and for the
+                        #  compiled rules alike: the outcome `timeout` is compared like any other)
+                        outs.append(('ok', limited(3, lambda: SyntaxParser(rr, ListTok()).parse('\x00'.join(sent), 'entry').simplify())))
+                    except TimeLimit:
+                        outs.append(('timeout', None))
                     except Errors.Syntax:
                         outs.append(('syntax', None))
                     except RecursionError:
